@@ -96,7 +96,9 @@ TraceFinalize ==
      \* `oog`: the execution-block transaction ran out of the gas limit its author gave it (reported by the implementation; the
      \* specification has no gas model). Then the message did NOT succeed, and - like after any failed block message - the head,
      \* the queues and what the engine is told are those of the state before (`after = C` below)
-     /\ Chk((B("finalize") /\ ~Ev.err) => ((checks /\ Ev.modulesOk /\ ~Ev.oog) => Ev.msgOk), "BLOCKMSG-FAILED", << DueList(C), p >>)
+     \* Only the block transaction of the `lowGas` mutation (gas limit chosen below the need on purpose) is excused for running out of
+     \* gas; an HONEST block transaction that does (the proposer's own limit does not cover its own payload) has failed like any other
+     /\ Chk((B("finalize") /\ ~Ev.err) => ((checks /\ Ev.modulesOk /\ ~(Ev.oog /\ Ev.byz = "lowGas")) => Ev.msgOk), "BLOCKMSG-FAILED", << DueList(C), p >>)
      /\ Chk((B("finalize") /\ ~Ev.err) => (Ev.oog => ~Ev.msgOk), "OUT-OF-GAS-BUT-APPLIED", p)
      /\ Chk(B("faults") => (Ev.err = ~engOk), "FINALIZE-ERROR", << Ev.endNp, Ev.endFcu >>)
      /\ Chk((B("faults") /\ ~Ev.err /\ Ev.byz = "") => EngineLogOk(Ev, after.head), "ENGINE-LOG", after.head)
